@@ -1,7 +1,70 @@
-(* C18 -- non-vacuity. *)
-From Coq Require Import List Arith ZArith.
-From Verif.C18 Require Import Model Proofs.
+(* C18 -- non-vacuity: concrete non-trivial inputs meet the hypotheses of the theorems
+   (R := Z), and the model computes what the code computes on them. *)
+From Coq Require Import List Arith ZArith Bool Ring ZArithRing.
+From Verif.C18 Require Import Model Proofs ZInst.
 Import ListNotations.
+Open Scope Z_scope.
 
-Example ex_wrap : wrap 5 (-2)%Z = Some 3.
+Example ex_Zring : ring_theory 0 1 Z.add Z.mul Z.sub Z.opp (@eq Z).
+Proof. exact InitialRing.Zth. Qed.
+
+(* index expressions *)
+Example ex_wrap : wrap 5 (-2) = Some 3%nat.
+Proof. vm_compute. reflexivity. Qed.
+Example ex_slice_neg_step : slice_range 6 (Some 4) (Some (-7)) (Some (-2)) = Ok [4%nat; 2%nat; 0%nat].
+Proof. vm_compute. reflexivity. Qed.
+Example ex_slice_like_test : slice_range 5 (Some 3) (Some 0) (Some (-2)) = Ok [3%nat; 1%nat].
+Proof. vm_compute. reflexivity. Qed.
+Example ex_normalize :
+  normalize_indices [IInt (-1); ISlice None None (Some (-1)); IList [1; -1]] [3%nat; 2%nat; 4%nat; 2%nat]
+  = Ok [([2%nat], true); ([1%nat; 0%nat], false); ([1%nat; 3%nat], false); ([0%nat; 1%nat], false)].
+Proof. vm_compute. reflexivity. Qed.
+Example ex_normalize_error : normalize_indices [IInt 3] [3%nat] = Err IndexError.
+Proof. vm_compute. reflexivity. Qed.
+
+(* two canonical tensors of shape (2,3), ranks 2 and 1 *)
+Definition mA : list (mat Z) := map (mat_of Z 0) [M 2 2 [[1; 2]; [3; 4]]; M 3 2 [[1; 0]; [0; 1]; [2; -1]]].
+Definition mB : list (mat Z) := map (mat_of Z 0) [M 2 1 [[5]; [-1]]; M 3 1 [[1]; [1]; [2]]].
+
+Example ex_uniform_A : uniform Z mA 2.
+Proof. repeat constructor. Qed.
+Example ex_uniform_B : uniform Z mB 1.
+Proof. repeat constructor. Qed.
+Example ex_add_value :
+  full_tab Z (canon_asarray Z 0 1 Z.add Z.mul (canon_add Z mA mB)) = ([2%nat; 3%nat], [6; 7; 10; 2; 3; 0]).
+Proof. vm_compute. reflexivity. Qed.
+
+(* a Tucker tensor whose core shape matches its factors *)
+Definition tU : list (mat Z) := map (mat_of Z 0) [M 2 2 [[1; 2]; [0; 1]]; M 3 1 [[1]; [2]; [3]]].
+Definition tX : full Z := full_of Z 0 ([2%nat; 1%nat], [1; -1]).
+Example ex_core_ok : core_ok Z tU tX.
+Proof. reflexivity. Qed.
+Example ex_core_ok_diag : core_ok Z mA (diag_core Z 0 1 2 2).
+Proof. reflexivity. Qed.
+Example ex_join_value :
+  full_tab Z (tucker_asarray Z 0 Z.add Z.mul (join_U Z tU mA) (join_X2 Z 0 tX (diag_core Z 0 1 2 2)))
+  = full_tab Z (canon_asarray Z 0 1 Z.add Z.mul mA).
+Proof. vm_compute. reflexivity. Qed.
+
+(* a Kronecker-rank-2 operator on 2x2 arrays: hypotheses of canop_compose / canop_apply *)
+Definition opA : canop Z := map (map (mat_of Z 0))
+  [[M 2 2 [[1; 2]; [0; 1]]; M 2 2 [[0; 1]; [1; 0]]]; [M 2 2 [[1; 0]; [0; 1]]; M 2 2 [[2; 0]; [0; 2]]]].
+Example ex_op_dims : Forall (fun t => map (mc Z) t = [2%nat; 2%nat]) opA.
+Proof. repeat constructor. Qed.
+
+(* a cross step with pivot value 1 (alpha = 1 / E_row[j0] = -1): hypothesis of aca_step_exact_on_cross_* *)
+Definition aA : mat Z := mat_of Z 0 (M 2 2 [[1; 2]; [3; 7]]).
+Definition aX : mat Z := mat_of Z 0 (M 2 2 [[0; 0]; [0; 0]]).
+Example ex_aca_pivot : (-1) * aca_E_row Z Z.sub aA aX 0 0 = 1.
+Proof. vm_compute. reflexivity. Qed.
+Example ex_aca_step_value :
+  mat_tab Z (aca_step Z Z.add Z.mul Z.sub aA aX 0 0 (-1)) = M 2 2 [[1; 2]; [3; 6]].
+Proof. vm_compute. reflexivity. Qed.
+
+(* the step checker of the correspondence run flags a wrong expectation (differ self-test) *)
+Example ex_checker_rejects :
+  zcheck_step (oNeg, [Ca [M 2 1 [[1]; [2]]]], Ca [M 2 1 [[1]; [2]]]) = false.
+Proof. vm_compute. reflexivity. Qed.
+Example ex_checker_accepts :
+  zcheck_step (oNeg, [Ca [M 2 1 [[1]; [2]]]], Ca [M 2 1 [[-1]; [-2]]]) = true.
 Proof. vm_compute. reflexivity. Qed.
